@@ -3,6 +3,325 @@
 -/
 import ClockBound.Model.World
 import ClockBound.Proofs.Daemon
+import ClockBound.Properties.C05
+import ClockBound.Properties.C06
+import ClockBound.Properties.C07
+import ClockBound.Properties.C09
 namespace ClockBound
+open TimeSpec
+
+/-! ### `TimeSpec.ofNs` -/
+
+theorem ofNs_toNs (n : Int) : (TimeSpec.ofNs n).toNs = n := by
+  unfold TimeSpec.ofNs TimeSpec.toNs NANOS; simp only []; omega
+
+theorem ofNs_normalized (n : Int) : (TimeSpec.ofNs n).normalized := by
+  unfold TimeSpec.ofNs TimeSpec.normalized NANOS; simp only []; omega
+
+theorem ofNs_sec (n : Int) : (TimeSpec.ofNs n).sec = n / 1000000000 := rfl
+theorem ofNs_nsec (n : Int) : (TimeSpec.ofNs n).nsec = n % 1000000000 := rfl
+
+theorem ofNs_inRange {n : Int} (h0 : 0 ≤ n) (h1 : n < 2147483648000000000) :
+    (TimeSpec.ofNs n).inRange = true := by
+  unfold TimeSpec.inRange TimeSpec.ofNs NANOS
+  simp only [decide_eq_true_eq]
+  omega
+
+/-! ### one daemon step -/
+
+/-- the three shapes of a daemon step -/
+theorem DaemonState.step_cases (w : World) (d : DaemonState) (e : WEvent) :
+    (e = .restart ∧ d.step w e = { d with u := Updater.new w.rho }) ∨
+    d.step w e = d ∨
+    (∃ m u' r, e.msg w = some m ∧ d.u.step m = some (u', r) ∧
+      d.step w e = { u := u', published := r :: d.published }) := by
+  cases e with
+  | restart => left; exact ⟨rfl, rfl⟩
+  | poll ta tq tp reply phc g =>
+    right
+    cases hm : (WEvent.poll ta tq tp reply phc g).msg w with
+    | none =>
+      left
+      show (match (WEvent.poll ta tq tp reply phc g).msg w with
+        | none => d
+        | some m => match d.u.step m with
+          | none => d
+          | some (u', r) => { u := u', published := r :: d.published }) = d
+      rw [hm]
+    | some m =>
+      cases hs : d.u.step m with
+      | none =>
+        left
+        show (match (WEvent.poll ta tq tp reply phc g).msg w with
+          | none => d
+          | some m => match d.u.step m with
+            | none => d
+            | some (u', r) => { u := u', published := r :: d.published }) = d
+        rw [hm]; simp only [hs]
+      | some p =>
+        obtain ⟨u', r⟩ := p
+        right
+        refine ⟨m, u', r, rfl, hs, ?_⟩
+        show (match (WEvent.poll ta tq tp reply phc g).msg w with
+          | none => d
+          | some m => match d.u.step m with
+            | none => d
+            | some (u', r) => { u := u', published := r :: d.published }) = _
+        rw [hm]; simp only [hs]
+
+/-- the measurement stored in an updater comes from a synchronised poll of the history -/
+def MeasFrom (w : World) (all : List WEvent) (bound : Int) (asOf : TimeSpec) : Prop :=
+  ∃ ta tq tp t phc g, WEvent.poll ta tq tp (some t) phc g ∈ all ∧
+    classify t (w.Rc tp).floor = .synchronized ∧
+    bound = boundF t + phc ∧ asOf = TimeSpec.ofNs (w.Mc ta).floor
+
+/-- provenance invariant of the daemon state w.r.t. the whole history `all` -/
+structure PInv (w : World) (all : List WEvent) (d : DaemonState) : Prop where
+  drift : d.u.drift = w.rho
+  meas : d.u.hasMeasurement = true → MeasFrom w all d.u.bound d.u.asOf
+  pub : ∀ r ∈ d.published, r.status ≠ .unknown →
+    MeasFrom w all r.bound r.asOf ∧ r.voidAfter = ⟨r.asOf.sec + 1000, 0⟩ ∧ r.drift = w.rho
+
+theorem PInv.init (w : World) (all : List WEvent) : PInv w all { u := Updater.new w.rho } := by
+  refine ⟨rfl, ?_, ?_⟩
+  · intro h; cases h
+  · intro r hr; cases hr
+
+theorem PInv.step {w : World} {all : List WEvent} {d : DaemonState} (inv : PInv w all d)
+    {e : WEvent} (he : e ∈ all) : PInv w all (d.step w e) := by
+  rcases DaemonState.step_cases w d e with ⟨_, hs⟩ | hs | ⟨m, u', r, hm, hstep, hs⟩
+  · rw [hs]
+    refine ⟨rfl, ?_, inv.pub⟩
+    intro h; cases h
+  · rw [hs]; exact inv
+  · rw [hs]
+    obtain ⟨hu', hr⟩ := Updater.step_some hstep
+    obtain ⟨_, fd, _, fsome, fnone⟩ := Updater.after_fields d.u (abstractMsg m)
+    rw [← hu'] at fd fsome fnone
+    have hmeas : u'.hasMeasurement = true → MeasFrom w all u'.bound u'.asOf := by
+      intro hh
+      cases hso : syncOf (abstractMsg m) with
+      | none =>
+        obtain ⟨e1, e2, e3⟩ := fnone hso
+        rw [e1, e2]; rw [e3] at hh
+        exact inv.meas hh
+      | some ba =>
+        obtain ⟨b, a⟩ := ba
+        obtain ⟨e1, e2, _⟩ := fsome b a hso
+        rw [e1, e2]
+        -- the message is a synchronised report of this poll
+        cases e with
+        | restart => cases hm
+        | poll ta tq tp reply phc g =>
+          cases reply with
+          | none =>
+            simp only [WEvent.msg, Option.some.injEq] at hm
+            subst hm
+            simp [abstractMsg, syncOf] at hso
+          | some t =>
+            simp only [WEvent.msg, Option.some.injEq] at hm
+            subst hm
+            simp only [abstractMsg] at hso
+            cases hc : classify t (w.Rc tp).floor <;> rw [hc] at hso <;>
+              simp only [syncOf, Option.some.injEq, Prod.mk.injEq, reduceCtorEq] at hso
+            obtain ⟨hb, ha⟩ := hso
+            exact ⟨ta, tq, tp, t, phc, g, he, hc, hb.symm, ha.symm⟩
+    refine ⟨by rw [fd]; exact inv.drift, hmeas, ?_⟩
+    intro r' hr' hst
+    rcases List.mem_cons.1 hr' with h | h
+    · subst h
+      rw [hr] at hst ⊢
+      simp only [Updater.pub] at hst
+      have hh : u'.hasMeasurement = true := by
+        cases hx : u'.hasMeasurement with
+        | true => rfl
+        | false => rw [hx] at hst; exact absurd rfl hst
+      exact ⟨hmeas hh, rfl, fd.trans inv.drift⟩
+    · exact inv.pub r' h hst
+
+theorem PInv.foldl {w : World} {all : List WEvent} (evs : List WEvent) (hsub : ∀ e ∈ evs, e ∈ all)
+    {d : DaemonState} (inv : PInv w all d) : PInv w all (evs.foldl (DaemonState.step w) d) := by
+  induction evs generalizing d with
+  | nil => exact inv
+  | cons e es ih =>
+    rw [List.foldl_cons]
+    exact ih (fun x hx => hsub x (List.mem_cons_of_mem _ hx)) (inv.step (hsub e List.mem_cons_self))
+
+theorem PInv.run (w : World) (evs : List WEvent) : PInv w evs (DaemonState.run w evs) :=
+  PInv.foldl evs (fun _ h => h) (PInv.init w evs)
+
+/-! ### the arithmetic core of containment -/
+
+theorem containment_core_aux (w : World) (hw : w.Good) (ta tq tr tm : ℚ)
+    (h1 : ta ≤ tq) (h2 : tq ≤ tr) (h3 : tr ≤ tm)
+    (E eB eG : ℚ) (bound growth : Int)
+    (hvalid : absR (w.Rc tq - tq) ≤ E) (hbound : E ≤ (bound : ℚ) + eB)
+    (hgrowth : (w.rho : ℚ) * (((w.Mc tm).floor - (w.Mc ta).floor : Int) : ℚ) / 1000000000 - 1 - eG
+      ≤ (growth : ℚ)) :
+    absR ((((w.Rc tr).floor : Int) : ℚ) - tr) <
+      ((bound + growth : Int) : ℚ) + 2 + (w.rho : ℚ) / 1000000000 + eB + eG := by
+  have hρ : (0 : ℚ) ≤ (w.rho : ℚ) := by positivity
+  obtain ⟨d1, d2⟩ := hw.drift tq tr h2
+  have m1 : w.Mc ta ≤ w.Mc tq := hw.mono _ _ h1
+  have m2 : w.Mc tr ≤ w.Mc tm := hw.mono _ _ h3
+  have fa := F64.floor_le' (w.Mc ta)
+  have fm := F64.lt_floor_add_one' (w.Mc tm)
+  have fr1 := F64.floor_le' (w.Rc tr)
+  have fr2 := F64.lt_floor_add_one' (w.Rc tr)
+  rw [absR_eq_abs, abs_le] at hvalid
+  obtain ⟨v1, v2⟩ := hvalid
+  -- the drift between the report and the client's reading, against the read ages
+  have hage : w.Mc tr - w.Mc tq ≤ ((w.Mc tm).floor : ℚ) + 1 - ((w.Mc ta).floor : ℚ) := by linarith
+  have hdr : (w.rho : ℚ) * (w.Mc tr - w.Mc tq) / 1000000000 ≤
+      (w.rho : ℚ) * (((w.Mc tm).floor : ℚ) + 1 - ((w.Mc ta).floor : ℚ)) / 1000000000 :=
+    div_le_div_of_nonneg_right (mul_le_mul_of_nonneg_left hage hρ) (by norm_num)
+  have hsplit : (w.rho : ℚ) * (((w.Mc tm).floor : ℚ) + 1 - ((w.Mc ta).floor : ℚ)) / 1000000000 =
+      (w.rho : ℚ) * (((w.Mc tm).floor - (w.Mc ta).floor : Int) : ℚ) / 1000000000 +
+        (w.rho : ℚ) / 1000000000 := by
+    push_cast; ring
+  rw [hsplit] at hdr
+  rw [absR_eq_abs, abs_lt]
+  push_cast
+  constructor <;> linarith
+
+/-! ### end-to-end containment -/
+
+/-- `computeBoundAt` looks at void-after only through the comparison with the monotonic reading -/
+theorem computeBoundAt_void_congr (r : Record) (v : TimeSpec) (real mono : TimeSpec)
+    (h : mono.lt v = mono.lt r.voidAfter) :
+    computeBoundAt { r with voidAfter := v } real mono = computeBoundAt r real mono := by
+  have hs : clientStatus { r with voidAfter := v } mono = clientStatus r mono := by
+    unfold clientStatus; simp only [h]
+  unfold computeBoundAt
+  simp only [hs]
+
+theorem lt_void_clip (m : TimeSpec) (s : Int) (hm : m.sec < 2147483648) :
+    m.lt ⟨min s 2147483648, 0⟩ = m.lt ⟨s, 0⟩ := by
+  by_cases hc : s ≤ 2147483648
+  · rw [min_eq_left hc]
+  · rw [min_eq_right (by omega)]
+    unfold TimeSpec.lt
+    simp only []
+    rw [if_neg (by omega), if_neg (by omega)]
+    simp only [decide_eq_decide]
+    omega
+
+theorem exactNs_nonneg {t : Tracking} (hs : 0 ≤ F64.chronyFloat t.dispW)
+    (hd : 0 ≤ F64.chronyFloat t.delayW) : 0 ≤ C07.exactNs t := by
+  unfold C07.exactNs
+  have := absR_nonneg (F64.chronyFloat t.offW)
+  apply mul_nonneg _ (by norm_num)
+  linarith
+
+theorem containment_aux (w : World) (hw : w.Good) (hrho : w.rho < 1000000000)
+    (evs : List WEvent) (hev : ∀ e ∈ evs, e.ok w)
+    (r : Record) (hr : r ∈ (DaemonState.run w evs).published)
+    (tr tm : ℚ) (hrm : tr ≤ tm) (hafter : ∀ e ∈ evs, ∀ t, e.endTime = some t → t ≤ tr)
+    (hR : 0 ≤ (w.Rc tr).floor ∧ (w.Rc tr).floor < 2147483648000000000)
+    (hM : (w.Mc tm).floor < 2147483648000000000)
+    (e l : TimeSpec) (st : Status)
+    (hout : clientQuery w r tr tm = .ok e l st) (hst : st ≠ .unknown) :
+    (e.toNs : ℚ) - sigma w < tr ∧ tr < (l.toNs : ℚ) + sigma w := by
+  unfold clientQuery at hout
+  -- the record is trusted, so it stems from a synchronised poll
+  have hrs : r.status ≠ .unknown := fun h => hst (C09.client_sees_unknown r h _ _ e l st hout)
+  obtain ⟨⟨ta, tq, tp, t, phc, g, hmem, hcls, hb, ha⟩, hv, hd⟩ := (PInv.run w evs).pub r hr hrs
+  have hok := hev _ hmem
+  simp only [WEvent.ok] at hok
+  obtain ⟨h1, h2, hp0, hrest⟩ := hok
+  obtain ⟨hvalid, happ, hlt, hA0⟩ := hrest hcls
+  unfold reportValid at hvalid
+  have h3 : tp ≤ tr := hafter _ hmem tp rfl
+  have hAM : (w.Mc ta).floor ≤ (w.Mc tm).floor := Rat.floor_monotone (hw.mono _ _ (by linarith))
+  generalize hAdef : (w.Mc ta).floor = A at *
+  generalize hMdef : (w.Mc tm).floor = M at *
+  generalize hRdef : (w.Rc tr).floor = Rr at *
+  obtain ⟨hR0, hR1⟩ := hR
+  -- the stored bound
+  obtain ⟨hs, hdl, hE, _, _⟩ := applicable_spec happ
+  obtain ⟨b0, bl, bu⟩ := boundF_bounds t hs hdl hE
+  have hE0 := exactNs_nonneg hs hdl
+  have hp0q : (0 : ℚ) ≤ (phc : ℚ) := by exact_mod_cast hp0
+  have heps : (0 : ℚ) < C07.eps51 := by unfold C07.eps51; norm_num
+  have heB : C07.exactNs t * C07.eps51 < 1 / 2048 := by
+    have : C07.exactNs t * C07.eps51 ≤ 1000000000000 * C07.eps51 :=
+      mul_le_mul_of_nonneg_right (by linarith) heps.le
+    have e : (1000000000000 : ℚ) * C07.eps51 < 1 / 2048 := by unfold C07.eps51; norm_num
+    linarith
+  have hbq : (r.bound : ℚ) = (boundF t : ℚ) + (phc : ℚ) := by rw [hb]; push_cast; ring
+  have hb0 : 0 ≤ r.bound := by rw [hb]; omega
+  have hb1 : r.bound < 1152921504606846976 := by
+    have : (r.bound : ℚ) < ((1152921504606846976 : Int) : ℚ) := by
+      rw [hbq]; push_cast; linarith
+    exact_mod_cast this
+  -- a record with the same client behaviour whose void-after is in the client's range
+  have hasec : r.asOf.sec = A / 1000000000 := by rw [ha]; rfl
+  have hansec : r.asOf.nsec = A % 1000000000 := by rw [ha]; rfl
+  have hatons : r.asOf.toNs = A := by rw [ha]; exact ofNs_toNs A
+  let v' : TimeSpec := ⟨min (r.asOf.sec + 1000) 2147483648, 0⟩
+  have hvlt : (TimeSpec.ofNs M).lt v' = (TimeSpec.ofNs M).lt r.voidAfter := by
+    rw [hv]
+    exact lt_void_clip _ _ (by rw [ofNs_sec]; omega)
+  have hout' := hout
+  rw [← computeBoundAt_void_congr r v' _ _ hvlt] at hout'
+  have hx : (⟨{ r with voidAfter := v' }, TimeSpec.ofNs Rr, TimeSpec.ofNs M⟩ : ClientIn).meaningful
+      = true := by
+    simp only [ClientIn.meaningful, Bool.and_eq_true, decide_eq_true_eq]
+    refine ⟨⟨⟨⟨?_, ?_⟩, ofNs_inRange hR0 hR1⟩, ofNs_inRange (by omega) hM⟩, hb0, hb1⟩
+    · rw [ha]; exact ofNs_inRange hA0 (by omega)
+    · unfold TimeSpec.inRange NANOS
+      simp only [v', decide_eq_true_eq]
+      omega
+  obtain ⟨_, _, hste, he, hl, _, _, _⟩ := ok_closed _ hx e l st hout'
+  simp only [ofNs_toNs] at he hl
+  -- the age is the difference of the two monotonic readings, and below 1000 s
+  have hage : (⟨{ r with voidAfter := v' }, TimeSpec.ofNs Rr, TimeSpec.ofNs M⟩ : ClientIn).age
+      = M - A := by
+    rw [age_eq_max]; simp only [ofNs_toNs, hatons]; omega
+  rw [hage, hd] at he hl
+  have hvns : v'.toNs ≤ A + 1000000000000 := by
+    unfold TimeSpec.toNs NANOS
+    simp only [v']
+    omega
+  have hMlt : M < A + 1000000000000 := by
+    by_contra hc
+    apply hst
+    rw [hste]
+    unfold C06.expected
+    simp only [ofNs_toNs, hatons]
+    cases r.status <;> rw [if_neg (by omega), if_neg (by omega)]
+  -- the growth term
+  obtain ⟨g1, _⟩ := C05.growth_bounds (M - A) w.rho (by omega) (by omega) hrho
+  have hρ0 : (0 : ℚ) ≤ (w.rho : ℚ) := by positivity
+  have hρ1 : (w.rho : ℚ) ≤ 1000000000 := by exact_mod_cast hrho.le
+  have hage0 : (0 : ℚ) ≤ ((M - A : Int) : ℚ) := by exact_mod_cast (by omega : 0 ≤ M - A)
+  have hage1 : ((M - A : Int) : ℚ) < 1000000000000 := by
+    exact_mod_cast (by omega : M - A < 1000000000000)
+  have hP0 : 0 ≤ (w.rho : ℚ) * ((M - A : Int) : ℚ) / 1000000000 := by positivity
+  have hP1 : (w.rho : ℚ) * ((M - A : Int) : ℚ) / 1000000000 < 1000000000000 := by
+    rw [div_lt_iff₀ (by norm_num)]
+    calc (w.rho : ℚ) * ((M - A : Int) : ℚ) ≤ 1000000000 * ((M - A : Int) : ℚ) :=
+          mul_le_mul_of_nonneg_right hρ1 hage0
+      _ < 1000000000 * 1000000000000 := by linarith
+      _ = _ := by ring
+  have heps5 : (0 : ℚ) < C05.eps51 := by unfold C05.eps51; norm_num
+  have heG : (w.rho : ℚ) * ((M - A : Int) : ℚ) / 1000000000 * C05.eps51 < 1 / 2048 := by
+    have : (w.rho : ℚ) * ((M - A : Int) : ℚ) / 1000000000 * C05.eps51
+        ≤ 1000000000000 * C05.eps51 := mul_le_mul_of_nonneg_right hP1.le heps5.le
+    have e : (1000000000000 : ℚ) * C05.eps51 < 1 / 2048 := by unfold C05.eps51; norm_num
+    linarith
+  have hcore := containment_core_aux w hw ta tq tr tm h1 (le_trans h2 h3) hrm
+    (C07.exactNs t + (phc : ℚ)) (C07.exactNs t * C07.eps51)
+    ((w.rho : ℚ) * ((M - A : Int) : ℚ) / 1000000000 * C05.eps51) r.bound (growth (M - A) w.rho)
+    hvalid (by rw [hbq]; linarith) (by rw [hAdef, hMdef]; linarith)
+  rw [hRdef, absR_eq_abs, abs_lt] at hcore
+  have he' : (e.toNs : ℚ) = (Rr : ℚ) - ((r.bound + growth (M - A) w.rho : Int) : ℚ) := by
+    rw [he]; push_cast; ring
+  have hl' : (l.toNs : ℚ) = (Rr : ℚ) + ((r.bound + growth (M - A) w.rho : Int) : ℚ) := by
+    rw [hl]; push_cast; ring
+  unfold sigma
+  rw [he', hl']
+  obtain ⟨c1, c2⟩ := hcore
+  constructor <;> linarith
 
 end ClockBound
